@@ -175,7 +175,7 @@ def report_all(ctx, pid, cases, res, coq_ok):
         if not msg:
             continue
         n_or += 1
-        if pid == 'C09' and c['fam'] == 'repro' and c.get('o9_kind') == 'slot-reuse' and res[i] is True:
+        if pid == 'C09' and c['fam'] == 'repro' and c.get('o9_kind') == 'slot-reuse' and res[i] is not False:
             key = KNOWN_SLOT_REUSE
         else:
             cat = re.sub(r'[^a-z]+', '-', msg.lower())[:40].strip('-')
